@@ -15,7 +15,7 @@ import (
 	"verif/harness/spec"
 )
 
-var topts = gen.TypeOpts{Depth: 3, Dynamic: true, Optional: true, Capsule: true}
+var topts = gen.TypeOpts{Depth: 3, Dynamic: true, Optional: true, Capsule: true, Long: 10}
 
 // Pair is two related type specs.
 type Pair struct {
